@@ -1174,7 +1174,12 @@ def _exec_job(job):
 
 
 def run_scenarios(scs, mutant=None):
-    res = common.pmap(_exec_job, [(sc, mutant) for sc in scs], init=_init, maxtasks=200)
+    return run_jobs([(sc, mutant) for sc in scs])
+
+
+def run_jobs(jobs):
+    scs = [j[0] for j in jobs]
+    res = common.pmap(_exec_job, jobs, init=_init, maxtasks=200)
     for r, sc in zip(res, scs):
         if 'error' in r:
             raise common.MachineryError('harness exception while executing %s:\n%s' % (json.dumps(sc)[:300], r['error']))
@@ -1504,7 +1509,7 @@ def main(tier, seed, replay=None):
                 continue
             o = dict(Defects=_tla_set(sorted(set(defects) | set(sw))), INVARIANTS=[inv])
             o.update(over)
-            f_rev[name] = small.submit(search, 'rev' + name.split(':')[1].split('-')[0], **o)
+            f_rev[name] = small.submit(search, 'rev' + name.split(':')[1].split('-')[0], nworkers=3 if '6c1c06c' in name else 1, **o)
         nsim = 60 if tier == 'quick' else 600
         p = _cfg_with('SIM_Lifecycle.cfg', scratch, 'sim.cfg', Defects=_tla_set(defects))
         f_sim = small.submit(tlc.simulate, 'MC_Lifecycle.tla', p, num=nsim, depth=160, seed=seed % 100000, timeout=1500)
@@ -1604,28 +1609,30 @@ def main(tier, seed, replay=None):
     core = [sc for i, sc in enumerate(core) if i % 2 == 0 or (sc['attempts'][0].get('fault') or [9])[0] <= 2]
     rest = [sc for sc in good if sc not in core]
     sub = core + rest[::max(1, len(rest) // (40 if tier == 'quick' else 250))]
-    for name in sorted(MUTANTS):
-        if name in REVERTS:
-            continue
-        mt = run_scenarios(sub, mutant=name)
-        o2 = common.Outcome('C02', tier, seed)
-        mv = judge(o2, mt, 'mutant ' + name, defects, count=False)
+    # all mutants are executed first, then judged by the monitor in ONE batch run (wall time)
+    names = [n for n in sorted(MUTANTS) if n not in REVERTS]
+    mt_all = run_jobs([(sc, name) for name in names for sc in sub])
+    rev_names = sorted(rev_scs)
+    rv_all = []
+    for name in rev_names:
+        rv_all.append(execute(rev_scs[name], mutant=MUTANTS[name], want_ops=True))   # the repair reverted in memory
+        rv_all.append(execute(rev_scs[name], want_ops=True))                          # same schedule, tree as it is
+    o2 = common.Outcome('C02', tier, seed)
+    mv = judge(o2, mt_all + rv_all, 'mutants and reverts', defects, count=False)
+    for k, name in enumerate(names):
+        mt = mt_all[k * len(sub):(k + 1) * len(sub)]
         bad = [mv[t['id']][0] for t in mt if mv[t['id']][0] != 'ok']
         out.sensitivity['mutant:' + name] = '%d of %d traces rejected (%s)' % (len(bad), len(mt), ','.join(sorted(set(bad))))
         if not bad:
             raise common.MachineryError('monitor did not reject in-memory mutant %s' % name)
     # each repair of /repo reverted in memory, driven along the TLC schedule of the corresponding as-is switch: the
     # monitor must reject the reverted code and accept the same schedule on the tree as it is
-    for name in sorted(rev_scs):
-        sc = rev_scs[name]
-        tm = execute(sc, mutant=MUTANTS[name], want_ops=True)
-        tu = execute(sc, want_ops=True)
-        o2 = common.Outcome('C02', tier, seed)
-        rv = judge(o2, [tm, tu], 'revert ' + name, defects, count=False)
-        cm_, cu_ = rv[1][0], rv[2][0]
+    for k, name in enumerate(rev_names):
+        tm, tu = rv_all[2 * k], rv_all[2 * k + 1]
+        cm_, cu_ = mv[tm['id']][0], mv[tu['id']][0]
         out.sensitivity['mutant:' + name] = 'rejected (%s; replay %d/%d steps matched); unreverted tree on the same schedule: %s' % (
-            signature(tm, cm_, rv[1][1]) if cm_ != 'ok' else 'ok', tm['replay']['matched'], tm['replay']['len'],
-            'ok' if cu_ == 'ok' else signature(tu, cu_, rv[2][1]))
+            signature(tm, cm_, mv[tm['id']][1]) if cm_ != 'ok' else 'ok', tm['replay']['matched'], tm['replay']['len'],
+            'ok' if cu_ == 'ok' else signature(tu, cu_, mv[tu['id']][1]))
         if cm_ == 'ok':
             raise common.MachineryError('monitor did not reject the in-memory revert %s' % name)
     import copy
